@@ -159,9 +159,10 @@ def seg_unit(M, msgs, K):
         p.result_cbs = list(futs)
         p.current_response = M.HttpResponse()
         order = []
-        # observe completion order through the two sinks
-        for f in futs:
-            f.set_result = (lambda r, f=f: (order.append(r), Fut.set_result(f, r)))
+        which = []
+        # observe completion order through the two sinks, and which queued request each response resolves
+        for i, f in enumerate(futs):
+            f.set_result = (lambda r, f=f, i=i: (order.append(r), which.append(i), Fut.set_result(f, r)))
         p.connection.event_received = lambda r: order.append(r)
         for a, b in zip(cuts, cuts[1:]):
             part = base.slice(a, b)
@@ -177,6 +178,7 @@ def seg_unit(M, msgs, K):
                 ex.require(g[2] == w[2], "parse: headers that were sent")
                 ex.require(rope_eq(g[3], w[3]), "parse: body equals what was sent")
         ex.require(all(f.done() for f in futs) and not p.result_cbs, "feed: every HTTP response resolves its request future")
+        ex.require(which == list(range(len(which))), "feed: the i-th HTTP response resolves the i-th queued request (oldest first)")
         cur = p.current_response
         ex.require(cur._state == 0 and slen(cur._raw_response) == 0 and slen(cur.body) == 0,
                    "feed: nothing left over in the parser after the last message")
@@ -203,6 +205,13 @@ def build(tier, mutate=None, seed=0):
         stream, exp = render(ms)
         units.append(Unit("seg/%s/cuts=%d" % (nm, K), seg_unit(C, ms, K), seg_unit(real_conn, ms, K), split=(K >= 2),
                           bounds={"stream_bytes": len(stream), "messages": len(ms), "cuts": "%d, all positions (symbolic)" % K},
+                          regions=["interior-cut"]))
+    if tier != "canary":
+        # on a secure session the same bytes arrive inside encrypted frames: a read boundary anywhere in a frame - length prefix,
+        # ciphertext or tag - must not lose or damage it (unit of C05)
+        from . import c05
+        units.append(Unit("secure-frames/F=2,R=2 (unit of C05)", c05.inbound(c05.copies(mutate), 2, 2, None), c05.inbound(c05.real_conn, 2, 2, None), split=True,
+                          bounds={"frames": 2, "reads": 2, "plaintext_len": "0..1024 each (symbolic)", "cuts": "all positions (symbolic)"},
                           regions=["interior-cut"]))
     return units
 
